@@ -46,7 +46,10 @@ func cloneRef(m map[string][]byte) map[string][]byte {
 	return n
 }
 
-func runCrashWorkload(r *rng, dir string) (*crashWorkload, error) {
+// witness 1, 2: the scripted workloads of the known findings F44b and F45 (a mixed workload whose
+// NoSync phase forces a full compaction with every compaction sync switched off; a mixed workload whose
+// NoSync phase appends), so that every run meets them; 0: a generated workload.
+func runCrashWorkload(r *rng, dir string, witness int) (*crashWorkload, error) {
 	cfg := Config{LL: "store", MMPn: 8, MMPd: 10, MaxPre: 4}
 	cfg.NoSync = r.chance(1, 3)
 	cfg.Concern = r.pick([]int{2, 4, 3})
@@ -58,6 +61,12 @@ func runCrashWorkload(r *rng, dir string) (*crashWorkload, error) {
 	}
 	cfg.CompactionSync = r.chance(1, 2)
 	cfg.SyncAfterBytes = []int{-1, -1, 0, 4096, -1}[r.intn(5)]
+	switch witness {
+	case 1:
+		cfg.NoSync, cfg.CompactionSync, cfg.SyncAfterBytes = false, false, -1
+	case 2:
+		cfg.NoSync, cfg.CompactionSync, cfg.SyncAfterBytes, cfg.Concern = false, false, 0, 0
+	}
 	h := newH(cfg, dir)
 	h.gating = 0
 	h.files = &fileRecorder{record: true}
@@ -76,11 +85,16 @@ func runCrashWorkload(r *rng, dir string) (*crashWorkload, error) {
 		w.optOut = !cfg.CompactionSync && cfg.SyncAfterBytes < 0
 	}
 	forceInPhase2 := r.chance(1, 2)
+	if witness > 0 {
+		rounds, switchAt, w.mixed = 3, 1, true
+		w.optOut = witness == 1
+		forceInPhase2 = witness == 1
+	}
 	syncedPhase := true
 	ref := map[string][]byte{}
 	w.refs = append(w.refs, cloneRef(ref))
 	nb := 0
-	wide := r.chance(1, 3)
+	wide := r.chance(1, 3) && witness == 0
 	for round := 0; round < rounds; round++ {
 		if round == switchAt {
 			// from here on: no syncing (a new session of the application with other persist options)
@@ -136,7 +150,7 @@ func runCrashWorkload(r *rng, dir string) (*crashWorkload, error) {
 				}
 			}
 		}
-		if round > 0 && r.chance(1, 4) {
+		if round > 0 && r.chance(1, 4) && witness == 0 {
 			// the value of the empty key is the byte image of the footer an earlier round wrote
 			// (the last write of that round): it lands page-aligned at the start of this round's
 			// key/value bytes, exactly where the backward footer scan looks once the real footers
@@ -178,7 +192,7 @@ func runCrashWorkload(r *rng, dir string) (*crashWorkload, error) {
 		h.files.mu.Unlock()
 		// now and then: revert to the previous footer (collection closed, as documented) and go on;
 		// the reverted state counts as one more completed step of the history
-		if round >= 1 && round < rounds-1 && r.chance(1, 5) {
+		if round >= 1 && round < rounds-1 && r.chance(1, 5) && witness == 0 {
 			c.Close()
 			cur, _ := s.Snapshot()
 			prev, perr := s.SnapshotPrevious(cur)
@@ -363,7 +377,11 @@ func famCrash(w *bufio.Writer, seed uint64, n int) error {
 		cs := seed*1000003 + uint64(wi)
 		r := newRng(cs ^ 0x5c)
 		dir := mustMkdirTemp(workDir, "crashsrc")
-		wl, err := runCrashWorkload(r, dir)
+		witness := 0
+		if wi < 2 && os.Getenv("VERIF_NO_WITNESS") == "" {
+			witness = wi + 1
+		}
+		wl, err := runCrashWorkload(r, dir, witness)
 		os.RemoveAll(dir)
 		if err != nil {
 			return err
@@ -443,6 +461,27 @@ func famCrash(w *bufio.Writer, seed uint64, n int) error {
 		if per > n-caseID {
 			per = n - caseID
 		}
+		// the crash point of a witness workload: just after the first unlink of the NoSync phase with
+		// nothing un-synced on disk (F44b); just after the first footer write of the NoSync phase with
+		// only the last un-synced page block on disk (F45: the footer without its segments)
+		wpt, wstrategy := -1, 0
+		if witness > 0 {
+			for i := wl.switchOps; i < len(wl.ops); i++ {
+				op := wl.ops[i]
+				if witness == 1 && op.Kind == "remove" && seqOf(op.File) >= 0 {
+					wpt, wstrategy = i+1, 0
+					break
+				}
+				if d := op.Data; witness == 2 && op.Kind == "write" && len(d) >= 44 && bytes.HasPrefix(d, moss.StoreMagicBeg) &&
+					bytes.HasPrefix(d[len(moss.StoreMagicBeg):], moss.StoreMagicBeg) {
+					wpt, wstrategy = i+1, 4
+					break
+				}
+			}
+			if wpt >= 0 && per > 1 {
+				per = 1
+			}
+		}
 		for j := 0; j < per; j++ {
 			pt := points[r.intn(len(points))]
 			if len(wl.rounds) > 0 && pt[0] < wl.rounds[0].opsEnd && r.chance(3, 4) {
@@ -457,6 +496,9 @@ func famCrash(w *bufio.Writer, seed uint64, n int) error {
 				// on disk but one page in the middle
 				pt = [2]int{widePoints[r.intn(len(widePoints))], 0}
 				strategy = 5
+			}
+			if wpt >= 0 {
+				pt, strategy = [2]int{wpt, 0}, wstrategy
 			}
 			img := buildImage(wl, pt[0], pt[1], strategy, r)
 			idir := mustMkdirTemp(workDir, "crashimg")
